@@ -147,10 +147,11 @@ private:
             ParserBox* box = new ParserBox(cfg.api, &M);
             box->configure(cfg);
             if (e.kind == "countsteps") { env.progressiveSteps = 1 << 30; }
+            bool adoptedNothing = false; if (e.kind == "adopt_nothing" && box->dom()) { DOMDocument* none = box->dom()->adoptDocument(); if (none) none->release(); adoptedNothing = true; }      // the application asks for the document of a parser that has none (yet): null, and no effect on later parses
             uint64_t t0 = g_run.ticks; (void)t0;
             pr = box->parse(env);
             if (e.kind == "reuse") for (int64_t i = 1; i < e.a; i++) pr = box->parse(env);
-            fired = (e.kind == "throw" && box->rec().threw) || (e.kind == "abandon" && pr.abandoned) || e.kind == "stream_throw" || e.kind == "truncate";
+            fired = adoptedNothing || (e.kind == "throw" && box->rec().threw) || (e.kind == "abandon" && pr.abandoned) || e.kind == "stream_throw" || e.kind == "truncate";
             if (callbacksOut) *callbacksOut = pr.callbacks;
             if (e.kind == "adopt" && box->dom() && pr.exception.empty()) {
                 DOMDocument* doc = box->dom()->adoptDocument();
@@ -202,6 +203,7 @@ private:
                     for (auto& r : res) { size_t L = r.bytes.size(); for (size_t cut : { L / 3, L / 2, L > 0 ? L - 1 : 0 }) { Ending e; e.kind = "truncate"; e.a = (int64_t)cut; e.res = r.name; endings.push_back(e); } }
                     if (cfg.api == API_DOM) { for (int64_t order = 0; order < 2; order++) { Ending e; e.kind = "adopt"; e.a = order; endings.push_back(e); } }
                     { Ending e; e.kind = "reuse"; e.a = 3; endings.push_back(e); }
+                    if (cfg.api == API_DOM) { Ending e; e.kind = "adopt_nothing"; endings.push_back(e); }
                     std::set<int64_t> pick; bool hasPick = plan.has("pick"); if (hasPick) for (auto& x : plan.at("pick").a) pick.insert(x.i64());
                     for (size_t i = 0; i < endings.size() && cls.empty(); i++) {
                         if (hasPick && !pick.count((int64_t)i)) continue;
